@@ -410,6 +410,10 @@ CK_RV Token::createToken(ObjectStore* objectStore, ByteString& soPIN, CK_UTF8CHA
 		if (!token->resetToken(labelByteStr))
 		{
 			ERROR_MSG("Could not reset the token");
+
+			// The SO PIN was verified by logging in; a failed
+			// re-initialisation must not leave the SO logged in
+			sdm->logout();
 			return CKR_DEVICE_ERROR;
 		}
 	}
